@@ -499,7 +499,7 @@ class PreOCF(ABC):
             # Add violation constraint
             solver.add_assertion(cond.make_A_then_not_B())
             if solver.solve():
-                rank += self._impacts[idx - 1]
+                rank += self._impacts[sorted(self.conditionals).index(idx)]
         return rank
 
     # smallest rank of any world that satisfies formula
@@ -970,14 +970,14 @@ class RandomMinCRepPreOCF(PreOCF):
         assert self.conditionals is not None
         [
             self._optimizer.minimize(z3.Int(f"eta_{i}"))
-            for i in range(1, len(self.conditionals) + 1)
+            for i in sorted(self.conditionals)
         ]
         if self._optimizer.check() == sat:
             assert self.conditionals is not None
             m = self._optimizer.model()
             self._impacts = [
                 int(str(m.eval(z3.Int(f"eta_{i}"))))
-                for i in range(1, len(self.conditionals) + 1)
+                for i in sorted(self.conditionals)
             ]
         else:
             raise ValueError("no solution found for random min c rep")
@@ -1001,7 +1001,7 @@ class RandomMinCRepPreOCF(PreOCF):
                 solver.add_assertion(sym)
             solver.add_assertion(cond.make_A_then_not_B())
             if solver.solve():
-                rank += self._impacts[idx - 1]
+                rank += self._impacts[sorted(self.conditionals).index(idx)]
         return rank
 
     # ------------------------------------------------------------------
